@@ -84,9 +84,9 @@ fn one_op<const OP: u8, const SOME: bool, const N: usize, const M: usize>() {
     forget(x);
 }
 
-// @h prop=C11,C04 tier=quick kind=check timeout=2400 mem=12 bound="UriRefBuf with authority, text <= 3 bytes, user info <= 1 byte" encodes="RiRefBufImpl::authority_mut;AuthorityMutImpl::{set_userinfo,as_authority};parse::find_user_info;utils::{replace,allocate_range}"
+// @h prop=C11,C04 tier=quick kind=check timeout=2400 mem=22 bound="UriRefBuf with authority, text <= 3 bytes, user info <= 1 byte" encodes="RiRefBufImpl::authority_mut;AuthorityMutImpl::{set_userinfo,as_authority};parse::find_user_info;utils::{replace,allocate_range}"
 #[cfg_attr(kani, kani::proof)]
-#[cfg_attr(kani, kani::unwind(7))]
+#[cfg_attr(kani, kani::unwind(8))]
 #[cfg_attr(kani, kani::stub(std::vec::Vec::resize, crate::stubs::vec_resize))]
 pub fn c11_set_userinfo_some_n3() {
     one_op::<USERINFO, true, 3, 1>()
@@ -100,9 +100,9 @@ pub fn c11_set_userinfo_some_n4() {
     one_op::<USERINFO, true, 4, 2>()
 }
 
-// @h prop=C11,C04:thorough tier=quick kind=check timeout=2400 mem=12 bound="UriRefBuf with authority, text <= 3 bytes, user info removed" encodes="RiRefBufImpl::authority_mut;AuthorityMutImpl::{set_userinfo,as_authority};parse::find_user_info;utils::{replace,allocate_range}"
+// @h prop=C11,C04:thorough tier=quick kind=check timeout=2400 mem=14 bound="UriRefBuf with authority, text <= 3 bytes, user info removed" encodes="RiRefBufImpl::authority_mut;AuthorityMutImpl::{set_userinfo,as_authority};parse::find_user_info;utils::{replace,allocate_range}"
 #[cfg_attr(kani, kani::proof)]
-#[cfg_attr(kani, kani::unwind(7))]
+#[cfg_attr(kani, kani::unwind(8))]
 #[cfg_attr(kani, kani::stub(std::vec::Vec::resize, crate::stubs::vec_resize))]
 pub fn c11_set_userinfo_none_n3() {
     one_op::<USERINFO, false, 3, 0>()
@@ -148,9 +148,9 @@ pub fn c11_set_host_n6() {
     one_op::<HOST, true, 6, 2>()
 }
 
-// @h prop=C11,C04:thorough tier=quick kind=check timeout=2400 mem=12 bound="UriRefBuf with authority, text <= 3 bytes, port <= 1 byte" encodes="AuthorityMutImpl::{set_port,as_authority};parse::find_port;utils::{replace,allocate_range}"
+// @h prop=C11,C04:thorough tier=thorough kind=check timeout=2400 mem=24 bound="UriRefBuf with authority, text <= 3 bytes, port <= 1 byte" encodes="AuthorityMutImpl::{set_port,as_authority};parse::find_port;utils::{replace,allocate_range}"
 #[cfg_attr(kani, kani::proof)]
-#[cfg_attr(kani, kani::unwind(7))]
+#[cfg_attr(kani, kani::unwind(8))]
 #[cfg_attr(kani, kani::stub(std::vec::Vec::resize, crate::stubs::vec_resize))]
 pub fn c11_set_port_some_n3() {
     one_op::<PORT, true, 3, 1>()
@@ -164,9 +164,9 @@ pub fn c11_set_port_some_n4() {
     one_op::<PORT, true, 4, 2>()
 }
 
-// @h prop=C11,C04:thorough tier=quick kind=check timeout=2400 mem=12 bound="UriRefBuf with authority, text <= 3 bytes, port removed" encodes="AuthorityMutImpl::{set_port,as_authority};parse::find_port;utils::{replace,allocate_range}"
+// @h prop=C11,C04:thorough tier=quick kind=check timeout=2400 mem=14 bound="UriRefBuf with authority, text <= 3 bytes, port removed" encodes="AuthorityMutImpl::{set_port,as_authority};parse::find_port;utils::{replace,allocate_range}"
 #[cfg_attr(kani, kani::proof)]
-#[cfg_attr(kani, kani::unwind(7))]
+#[cfg_attr(kani, kani::unwind(8))]
 #[cfg_attr(kani, kani::stub(std::vec::Vec::resize, crate::stubs::vec_resize))]
 pub fn c11_set_port_none_n3() {
     one_op::<PORT, false, 3, 0>()
